@@ -75,6 +75,20 @@ func clauseTemplate(name, open string, head func(id int) string) listTemplate {
 		}}
 }
 
+// tmplCaseBody: the statements of a case body (a statement list without a closing token of its own)
+func tmplCaseBody() listTemplate {
+	return listTemplate{Name: "CaseClause.Body",
+		Open:  func(l string) []string { return []string{"func " + l + "() {", "\tswitch x {", "\tcase 1:"} },
+		Close: func(string) []string { return []string{"\t}", "}", ""} },
+		Elem:  func(id int) []string { return []string{fmt.Sprintf("\t\te%d()", id)} }, Indent: "\t\t",
+		Lists: func(f *dst.File) (reflect.Value, reflect.Value) {
+			get := func(d dst.Decl) reflect.Value {
+				return reflect.ValueOf(&d.(*dst.FuncDecl).Body.List[0].(*dst.SwitchStmt).Body.List[0].(*dst.CaseClause).Body).Elem()
+			}
+			return get(f.Decls[0]), get(f.Decls[1])
+		}}
+}
+
 func tmplIfStmts() listTemplate {
 	return listTemplate{Name: "BlockStmt.List(if)",
 		Open:  func(l string) []string { return []string{"func " + l + "() {"} },
@@ -129,6 +143,7 @@ var listTemplates = []listTemplate{
 	clauseTemplate("SelectStmt.Comms", "select", func(id int) string { return fmt.Sprintf("case <-c%d:", id) }),
 	clauseTemplate("TypeSwitchStmt.Cases", "switch x.(type)", func(id int) string { return fmt.Sprintf("case t%d:", id) }),
 	tmplIfStmts(),
+	tmplCaseBody(),
 	tmplDecls(),
 	genDeclTemplate("GenDecl.Specs(var)", "var (", func(id int) string { return fmt.Sprintf("e%d = %d", id, id) }, func(f *dst.File) (reflect.Value, reflect.Value) {
 		return specsOf(f.Decls[0]), specsOf(f.Decls[1])
